@@ -10,10 +10,11 @@
   OBLIGATIONS (checked against `Genshi/Audit.lean` by the harness):
     xform_correct bound_names_left_alone free_names_looked_up strict_raises lenient_undefined
     name_resolution_order attr_falls_back_to_item item_falls_back_to_attr attr_error_of_class_propagates
-    constants_not_looked_up link_consistent pipeline_faithful expression_semantics
+    constants_not_looked_up link_consistent pipeline_faithful expression_semantics xform_invertible
 -/
 import Genshi.Lemmas.PyEval
 import Genshi.Lemmas.PyXformWF
+import Genshi.Lemmas.PyUnxf
 import Genshi.Props.C13
 namespace Genshi.Props.C03
 open Genshi.Py
@@ -173,5 +174,19 @@ example : xform exScopes =
 example : eval unitSem (pyLook unitSem (fun _ => .ok ())) (xform exScopes) []
     = eval unitSem (gsLook unitSem unitWorld) exScopes [] :=
   xform_correct _ _ _ link_consistent exScopes (by decide)
+
+/-- **The rewriting loses nothing.**  Undoing the three documented rewritings
+    (`_lookup_name(__data__, 'x')` → `x`, `_lookup_attr(v, 'a')` → `v.a`, `_lookup_item(v, (k,))` → `v[k]`)
+    on the transformed tree gives back exactly the tree that was parsed, for every expression that
+    does not itself call the (reserved) lookup functions: the transformer only wraps names,
+    attribute and item accesses; it never drops, duplicates, reorders or otherwise changes a node.
+    Independent of any semantics `σ`. -/
+theorem xform_invertible (e : PyExpr) (h : noLookup e = true) : unxf (xform e) = e :=
+  unxf_xf e _ h
+
+example : unxf (xform (.lambda [] [.param ['a'] none (some (.name ['b']))] none [] none
+    (.subscript (.attribute (.name ['a']) ['c']) (.name ['d']))))
+    = .lambda [] [.param ['a'] none (some (.name ['b']))] none [] none
+        (.subscript (.attribute (.name ['a']) ['c']) (.name ['d'])) := xform_invertible _ rfl
 
 end Genshi.Props.C03
